@@ -35,6 +35,7 @@ def main(ids):
         if rc != 0:
             res[hid] = {"error": "patch does not apply: " + out[-200:]}
             continue
+        saved = {c: open(f"/verif/evidence/{c}.json").read() for c in checks if os.path.exists(f"/verif/evidence/{c}.json")}
         try:
             # build once, so that the parallel checks do not queue on the cargo lock with a cold target
             sh(["cargo", "build"], cwd="/verif/harness")
@@ -47,6 +48,8 @@ def main(ids):
                 r = {c: {"exit": rc, "lines": lines[:4]} for c, rc, lines in ex.map(one, checks)}
         finally:
             sh(["git", "-C", "/repo", "checkout", "--", "."])
+            for c, txt in saved.items():      # evidence written with a patch applied must not stay
+                open(f"/verif/evidence/{c}.json", "w").write(txt)
         res[hid] = {"verif_commit": head, "quiet": all(v["exit"] == 0 for v in r.values()), "checks": r}
         print(hid, res[hid]["quiet"], {c: v["exit"] for c, v in r.items()}, flush=True)
         json.dump(res, open(path, "w"), indent=1, sort_keys=True)
